@@ -228,6 +228,15 @@ fn framings() -> Vec<Framing> {
     v.push(Framing { splits: vec![1], ..Default::default() });
     v.push(Framing { splits: vec![2, 5], ..Default::default() });
     // undefined flag bits on the CONTINUATION frames (the ones that mean PADDED / PRIORITY / END_STREAM on HEADERS)
+    // empty fragments: the HEADERS frame carries nothing of the block (cut at byte 0; with padding, with priority fields),
+    // the last CONTINUATION frame is empty, both
+    for pad in [None, Some(0u8), Some(1), Some(3), Some(255)] {
+        v.push(Framing { splits: vec![0], pad, ..Default::default() });
+        v.push(Framing { splits: vec![0, 2], pad, prio: Some((false, 0, 16)), ..Default::default() });
+    }
+    v.push(Framing { splits: vec![usize::MAX], ..Default::default() });
+    v.push(Framing { splits: vec![2, usize::MAX], pad: Some(1), ..Default::default() });
+    v.push(Framing { splits: vec![0, usize::MAX], ..Default::default() });
     for hf in [0x02u8, 0x10, 0x40, 0x80, 0xd2] {
         v.push(Framing { hdr_flags: hf, ..Default::default() });
         v.push(Framing { hdr_flags: hf, pad: Some(2), prio: Some((true, 3, 8)), splits: vec![3], ..Default::default() });
@@ -260,6 +269,10 @@ fn settings_lists(thorough: bool) -> Vec<Vec<(u16, u32)>> {
         }
     }
     v.push((1..=12u16).map(|i| (i, i as u32 * 1000)).collect());
+    // counts: 255 / 256 / 257 parameters in one SETTINGS frame, and as many as a 16 KiB frame holds (2730)
+    for n in [255u32, 256, 257, 2730] {
+        v.push((0..n).map(|i| ((i % 7 + 1) as u16, i)).collect());
+    }
     v
 }
 
